@@ -129,7 +129,7 @@ let () =
          | 'K' ->
              let t = Array.of_list (String.split_on_char ' ' line) in
              k := { kf_inherit = b t.(1); kf_idonly = b t.(2); kf_reset = b t.(3); kf_inflight = b t.(4);
-                    kf_mergeconv = b t.(5); kf_viewstore = b t.(6) }
+                    kf_mergeconv = b t.(5); kf_viewstore = b t.(6); kf_detachreset = b t.(7) }
          | 'S' ->
              let t = Array.of_list (String.split_on_char ' ' line) in
              states := [ init (ns ',' t.(2)) ];
